@@ -214,9 +214,13 @@ var finite = map[string]string{
 	"finite-cyclic":   `var a = []; a.push(a); return a;`,
 	"finite-badout":   `_.out(function() { return 1; }); return _.bindings;`,
 	"finite-syntax":   `return eval("(");`,
+	// runaway recursion through built-ins (each level nests Go frames): ends with the runtime's call-depth limit
+	"finite-getter-recursion": `var o = {get x() { return this.x; }}; return {v: o.x};`,
+	"finite-call-recursion":   `function g() { return g.call(this); } return {v: g()};`,
+	"finite-sort-recursion":   `function f() { [2, 1].sort(function(a, b) { f(); return 0; }); } f(); return {};`,
 }
 var finiteNames = []string{"finite", "finite", "finite-null", "finite-nothing", "finite-scalar", "finite-array", "finite-throw", "finite-throwobj", "finite-getter",
-	"finite-cyclic", "finite-badout", "finite-syntax"}
+	"finite-cyclic", "finite-badout", "finite-syntax", "finite-getter-recursion", "finite-call-recursion", "finite-sort-recursion"}
 
 func init() {
 	for k, v := range finite {
